@@ -193,6 +193,123 @@ class Body:
                     dq.append(s)
         return seen
 
+    # ---- drop-flag aware reachability
+    def flag_locals(self):
+        """bool locals all of whose definitions are constant assignments (compiler drop flags and the like)"""
+        if getattr(self, '_flags', None) is not None:
+            return self._flags
+        out = set()
+        for l, ds in self.defs().items():
+            if self.locals[l]['ty'] != 'bool' or not ds or (1 <= l <= self.arg_count):
+                continue
+            ok = True
+            for d in ds:
+                if d[0] != 'stmt':
+                    ok = False
+                    break
+                st = self.blocks[d[1]]['stmts'][d[2]]
+                rv = st.get('rv', {})
+                if not (st['k'] == 'assign' and rv.get('k') == 'use' and 'const' in rv['op'] and 'val' in rv['op']['const']):
+                    ok = False
+                    break
+            if ok:
+                out.add(l)
+        self._flags = out
+        return out
+
+    def _flag_transfer(self, b, state):
+        state = dict(state)
+        for st in self.blocks[b]['stmts']:
+            if st['k'] == 'assign' and not st['lhs']['p'] and st['lhs']['l'] in self.flag_locals():
+                state[st['lhs']['l']] = frozenset([st['rv']['op']['const']['val']])
+        return state
+
+    def _flag_succs(self, b, state):
+        t = self.term(b)
+        if t['k'] == 'switch':
+            pl = op_place(t['discr'])
+            src = None
+            if pl is not None and not pl['p']:
+                if pl['l'] in self.flag_locals():
+                    src = pl['l']
+                else:
+                    ds = [d for d in self.defs().get(pl['l'], []) if d[0] == 'stmt']
+                    if len(ds) == 1:
+                        st = self.blocks[ds[0][1]]['stmts'][ds[0][2]]
+                        sp = op_place(st['rv']['op']) if st['k'] == 'assign' and st['rv']['k'] == 'use' else None
+                        if sp is not None and not sp['p'] and sp['l'] in self.flag_locals():
+                            src = sp['l']
+            if src is not None and src in state:
+                vals = state[src]
+                outs = []
+                listed = set()
+                for v, tgt in t['targets']:
+                    listed.add(v)
+                    if v in vals:
+                        outs.append(tgt)
+                if any(v not in listed for v in vals):
+                    outs.append(t['otherwise'])
+                return [x for x in outs if not self.blocks[x]['cleanup']]
+        return self.succs(b)
+
+    def flag_states(self):
+        """forward dataflow: possible constant values of every flag local at block entry"""
+        if getattr(self, '_fstates', None) is not None:
+            return self._fstates
+        IN = {0: {}}
+        work = [0]
+        n = 0
+        while work and n < 50000:
+            n += 1
+            b = work.pop()
+            out = self._flag_transfer(b, IN[b])
+            for s in self._flag_succs(b, out):
+                old = IN.get(s)
+                if old is None:
+                    IN[s] = dict(out)
+                    work.append(s)
+                else:
+                    new = dict(old)
+                    ch = False
+                    for k2 in set(old) | set(out):
+                        a, c = old.get(k2), out.get(k2)
+                        if a is None or c is None:
+                            if k2 in new:
+                                del new[k2]
+                                ch = True
+                            continue
+                        u = a | c
+                        if u != a:
+                            new[k2] = u
+                            ch = True
+                    if ch:
+                        IN[s] = new
+                        work.append(s)
+        self._fstates = IN
+        return IN
+
+    def reachable_flagged(self, start):
+        """blocks reachable from `start`, following flag-consistent edges only (the flag state at `start`
+        is the dataflow state there, then refined along the way)"""
+        IN = self.flag_states()
+        st0 = IN.get(start, {})
+        seen = {}
+        work = [(start, st0)]
+        out = set()
+        n = 0
+        while work and n < 50000:
+            n += 1
+            b, stt = work.pop()
+            key = (b, tuple(sorted((k, tuple(sorted(v))) for k, v in stt.items())))
+            if key in seen:
+                continue
+            seen[key] = True
+            out.add(b)
+            o = self._flag_transfer(b, stt)
+            for s in self._flag_succs(b, o):
+                work.append((s, o))
+        return out
+
     def const_pruned_edges(self):
         """M1: edges of SwitchInt on a local whose only definition is a constant."""
         removed = set()
